@@ -5,6 +5,7 @@ import (
 	"fmt"
 	"os"
 	"path/filepath"
+	"runtime/debug"
 )
 
 type areaFunc func(r *Rng, n int, dir string) (*AreaOut, error)
@@ -31,7 +32,20 @@ func main() {
 		panic(err)
 	}
 	r := NewRng(*seed)
-	res, err := f(r, *n, *out)
+	var res *AreaOut
+	var err error
+	func() {
+		defer func() {
+			if rec := recover(); rec != nil {
+				// a panic escaping from the code under test is itself a finding: report it as an oracle failure
+				// of whatever property is being checked, with the stack as the replay
+				res = &AreaOut{Hist: map[string]int{}, Rule: "aborted: panic in the code under test", Samples: []any{"(aborted)"},
+					Oracle: []OracleFailure{{Property: "ANY", Clause: "panic", Desc: fmt.Sprintf("panic in the code under test while running area %s: %v", area, rec), Input: string(debug.Stack())}}}
+				err = nil
+			}
+		}()
+		res, err = f(r, *n, *out)
+	}()
 	if err != nil {
 		fmt.Fprintf(os.Stderr, "area %s failed: %v\n", area, err)
 		os.Exit(3)
